@@ -322,4 +322,26 @@ theorem fmtIter_tk : (e : PExp) → WFx.WFit e → Iter e (fmtToksIter e)
 termination_by e => (sizeOf e, 1)
 end
 
+mutual
+/-- the expression sub-language of C09 is part of the printable fragment -/
+theorem wf_wfx : (t : PExp) → WF t → WFx t
+  | .int v, h => by simpa [WF, WFx] using h
+  | .num _, _ => by simp [WFx]
+  | .bool _, _ => by simp [WFx]
+  | .var n, h => by simpa [WF, WFx] using h
+  | .call n args, h => by
+    simp only [WF] at h
+    simp only [WFx]
+    exact ⟨h.1, h.2.1, wfs_wfxs args h.2.2⟩
+  | .un _ e, h => by simp only [WF] at h; simp only [WFx]; exact wf_wfx e h
+  | .bin _ l r, h => by simp only [WF] at h; simp only [WFx]; exact ⟨wf_wfx l h.1, wf_wfx r h.2⟩
+  | .str _, h | .prim _, h | .cvar _ _, h | .access _ _, h | .block _ _, h | .scoped _ _ _ _, h => by simp [WF] at h
+theorem wfs_wfxs : (ts : List PExp) → WF.WFs ts → WFx.WFxs ts
+  | [], _ => by simp [WFx.WFxs]
+  | t :: ts, h => by
+    simp only [WF.WFs] at h
+    simp only [WFx.WFxs]
+    exact ⟨wf_wfx t h.1, wfs_wfxs ts h.2⟩
+end
+
 end Rooc.Syntax.Proofs
